@@ -16,6 +16,17 @@ What is extracted (fail closed: any statement that is not recognised makes the d
  * gen_stream_read : HttpRangeStream.read as a list of SZeroEmpty (`if n == 0: return b""`) / SRequest (range_end, headers,
    session.get) / SRaiseForStatus / SAdvance (`self.range_start += n`) / SReturnContent, in statement order
  * gen_fetch_workers : the worker count CopcReader._fetch_all_chunks hands to both strategies, as a function of http_num_threads
+ * gen_retry : the retry configuration of the session HttpRangeStream uses, from requests_retry_session: mkRetry total connect read
+     status_forcelist - the function must be, statement by statement, `session = session or requests.Session()` ; `retry =
+     Retry(total=, read=, connect=, backoff_factor=, status_forcelist=)` (no other keyword; values: int literals or the parameters
+     `retries` / `status_forcelist` with literal defaults) ; `adapter = HTTPAdapter(max_retries=retry)` (no other keyword) ; the two
+     mounts ; `return session` - with Retry / HTTPAdapter being THE names imported from urllib3 / requests.adapters
+ * gen_transport_kept : what the transport keeps between requests, process-wide.  TkNothing = nothing: the adapter is the stock
+     requests.adapters.HTTPAdapter (a subclass, a wrapper, another keyword: MISSING), HttpRangeStream.__init__ only sets url,
+     range_start and `self.session = requests_retry_session()` (no request at construction, no session passed in), close() closes
+     the session, __exit__ calls close(), HttpRangeStream / HttpFetcherThread have no class-level assignment, and none of these
+     functions nor read / seek references a module-level name bound to the result of a call (a shared session, lock, semaphore,
+     pool, cache) or uses global / nonlocal.  TkSlots exists in the model only for the refutation.
  * gen_fetch_site : what the reader keeps of a query's fetched blocks for later queries.  FsDirect = nothing: the http branch of
      _fetch_all_chunks hands byte_queries and the query's own zero-filled buffer straight to the strategy (checked by
      fetch_workers), and neither _fetch_all_chunks nor _fetch_and_decompress_points_of_nodes stores anything that outlives the
@@ -41,6 +52,8 @@ Inductive collect_order := BySubmission | ByCompletion.
 Inductive jinstr := JSeek | JRead.
 Inductive sinstr := SZeroEmpty | SRequest | SRaiseForStatus | SAdvance | SReturnContent.
 Inductive fetch_site := FsDirect | FsMemo (by_offset_only : bool).
+Record retry_cfg := mkRetry { rt_total : nat; rt_connect : nat; rt_read : nat; rt_statuses : list Z }.
+Inductive transport_kept := TkNothing | TkSlots (capacity : nat) (release_when_send_raises : bool).
 """
 
 
@@ -810,6 +823,183 @@ def fetch_workers(repo):
     return "http_num_threads"
 
 
+# ------------------------------------------------------------------ the transport: requests_retry_session and who uses it
+def _imported_from(mod, name, modules):
+    """`name` is bound at module level by exactly one `from <one of modules> import name` and by nothing else"""
+    hits = 0
+    for st in ast.walk(mod):
+        if isinstance(st, ast.ImportFrom):
+            for a in st.names:
+                if (a.asname or a.name) == name:
+                    if st.module not in modules or a.name != name:
+                        raise Untranslatable(f"{name} is imported from {st.module}")
+                    hits += 1
+        elif isinstance(st, ast.Import):
+            for a in st.names:
+                if (a.asname or a.name).split(".")[0] == name:
+                    raise Untranslatable(f"{name} is bound by `import {a.name}`")
+        elif isinstance(st, (ast.ClassDef, ast.FunctionDef, ast.AsyncFunctionDef)) and st.name == name:
+            raise Untranslatable(f"{name} is defined in laspy/copc.py (line {st.lineno}), not the imported one")
+        elif isinstance(st, ast.Name) and st.id == name and not isinstance(st.ctx, ast.Load):
+            raise Untranslatable(f"{name} is rebound (line {st.lineno})")
+    if hits != 1:
+        raise Untranslatable(f"{name}: {hits} imports")
+
+
+def _int_lit(e, what):
+    if isinstance(e, ast.Constant) and type(e.value) is int and 0 <= e.value <= 50:
+        return e.value
+    raise Untranslatable(f"{what}: not a small non-negative int literal: {u(e)[:40]}")
+
+
+def _call_free_module_consts(mod):
+    """module-level names bound by an assignment whose value contains a call (an object built once, shared by every user)"""
+    out = {}
+
+    def visit(stmts):
+        for st in stmts:
+            if isinstance(st, (ast.Assign, ast.AnnAssign, ast.AugAssign)):
+                targets = st.targets if isinstance(st, ast.Assign) else [st.target]
+                made = st.value is not None and (any(isinstance(n, ast.Call) for n in ast.walk(st.value)) or _makes_container(st.value))
+                for t in targets:
+                    for n in ast.walk(t):
+                        if isinstance(n, ast.Name):
+                            out[n.id] = out.get(n.id, False) or made
+            elif isinstance(st, ast.Try):
+                visit(st.body); visit(st.orelse); visit(st.finalbody)
+                for h in st.handlers:
+                    visit(h.body)
+            elif isinstance(st, (ast.If, ast.With, ast.For, ast.While)):
+                visit(st.body); visit(getattr(st, "orelse", []))
+    visit(mod.body)
+    return {k for k, v in out.items() if v}
+
+
+def _no_shared_object(fn, what, shared):
+    for n in ast.walk(fn):
+        if isinstance(n, (ast.Global, ast.Nonlocal)):
+            raise Untranslatable(f"{what}: {u(n)}")
+        if isinstance(n, ast.Name) and n.id in shared:
+            raise Untranslatable(f"{what}: uses the module-level object {n.id} (shared by every stream / query of the process)")
+    if fn.decorator_list:
+        raise Untranslatable(f"{what}: decorated ({u(fn.decorator_list[0])[:40]})")
+    for d in fn.args.defaults + [x for x in fn.args.kw_defaults if x is not None]:
+        if any(isinstance(n, ast.Call) for n in ast.walk(d)) or _makes_container(d):
+            raise Untranslatable(f"{what}: default argument built once: {u(d)[:40]}")
+
+
+def _plain_body(fn):
+    return [s for s in fn.body if not (isinstance(s, ast.Expr) and isinstance(s.value, ast.Constant))]
+
+
+def _class_has_only_methods(cls, what):
+    for st in cls.body:
+        if isinstance(st, ast.Expr) and isinstance(st.value, ast.Constant):
+            continue
+        if isinstance(st, ast.FunctionDef) and not st.decorator_list:
+            continue
+        raise Untranslatable(f"{what}: class-level statement `{u(st)[:60]}` (state shared by every instance?)")
+
+
+def transport(repo):
+    """-> (total, connect, read, [statuses]) ; raises unless the transport keeps nothing (see the module docstring)"""
+    mod = py2v.parse_raw(repo, "laspy/copc.py")
+    _imported_from(mod, "HTTPAdapter", ("requests.adapters",))
+    _imported_from(mod, "Retry", ("requests.packages.urllib3.util.retry", "urllib3.util.retry", "urllib3.util", "urllib3"))
+    f = py2v.find_func(mod, "requests_retry_session")
+    names = [a.arg for a in f.args.args]
+    if names != ["retries", "backoff_factor", "status_forcelist", "session"] or f.args.vararg or f.args.kwarg or f.args.kwonlyargs:
+        raise Untranslatable("requests_retry_session: parameters " + ", ".join(names))
+    d_retries, d_backoff, d_force, d_session = f.args.defaults
+    retries = _int_lit(d_retries, "requests_retry_session: default of retries")
+    if not (isinstance(d_backoff, ast.Constant) and type(d_backoff.value) in (int, float) and 0 <= d_backoff.value <= 120):
+        raise Untranslatable("requests_retry_session: default of backoff_factor")
+    if not isinstance(d_force, (ast.Tuple, ast.List)):
+        raise Untranslatable("requests_retry_session: default of status_forcelist")
+    force = [_int_lit2(e) for e in d_force.elts]
+    if not (isinstance(d_session, ast.Constant) and d_session.value is None):
+        raise Untranslatable("requests_retry_session: default of session")
+    body = _plain_body(f)
+    if len(body) != 6:
+        raise Untranslatable(f"requests_retry_session: {len(body)} statements")
+    if norm(u(body[0])) != "session=sessionorrequests.Session()":
+        raise Untranslatable("requests_retry_session: " + u(body[0])[:60])
+    st = body[1]
+    if not (isinstance(st, ast.Assign) and norm(u(st.targets[0])) == "retry" and isinstance(st.value, ast.Call)
+            and u(st.value.func) == "Retry" and not st.value.args):
+        raise Untranslatable("requests_retry_session: " + u(st)[:60])
+    kw = {}
+    for k in st.value.keywords:
+        if k.arg is None or k.arg in kw:
+            raise Untranslatable("requests_retry_session: Retry(**...)")
+        kw[k.arg] = k.value
+    if set(kw) != {"total", "read", "connect", "backoff_factor", "status_forcelist"}:
+        raise Untranslatable("requests_retry_session: Retry keywords " + ", ".join(sorted(kw)))
+
+    def count(e, what):
+        if isinstance(e, ast.Name) and e.id == "retries":
+            return retries
+        return _int_lit(e, what)
+    total, read, connect = (count(kw[k], "Retry(" + k + ")") for k in ("total", "read", "connect"))
+    if not (isinstance(kw["backoff_factor"], ast.Name) and kw["backoff_factor"].id == "backoff_factor"):
+        raise Untranslatable("requests_retry_session: Retry(backoff_factor=...)")
+    if isinstance(kw["status_forcelist"], ast.Name) and kw["status_forcelist"].id == "status_forcelist":
+        statuses = force
+    elif isinstance(kw["status_forcelist"], (ast.Tuple, ast.List)):
+        statuses = [_int_lit2(e) for e in kw["status_forcelist"].elts]
+    else:
+        raise Untranslatable("requests_retry_session: Retry(status_forcelist=...)")
+    if norm(u(body[2])) != "adapter=HTTPAdapter(max_retries=retry)":
+        raise Untranslatable("requests_retry_session: the adapter is `" + u(body[2])[:70] + "`, not the stock HTTPAdapter(max_retries=retry)")
+    if sorted(norm(u(s)) for s in body[3:5]) != sorted([norm("session.mount('http://', adapter)"), norm("session.mount('https://', adapter)")]):
+        raise Untranslatable("requests_retry_session: mounts")
+    if norm(u(body[5])) != "returnsession":
+        raise Untranslatable("requests_retry_session: " + u(body[5])[:60])
+    for n in ast.walk(f):
+        if isinstance(n, ast.Name) and not isinstance(n.ctx, ast.Load) and n.id not in ("session", "retry", "adapter"):
+            raise Untranslatable("requests_retry_session: binds " + n.id)
+    # who builds the session, and what else lives as long as the process
+    shared = _call_free_module_consts(mod)
+    cls = py2v.find_class(mod, "HttpRangeStream")
+    if cls.bases or cls.keywords or cls.decorator_list:
+        raise Untranslatable("HttpRangeStream: bases / decorators")
+    _class_has_only_methods(cls, "HttpRangeStream")
+    _class_has_only_methods(py2v.find_class(mod, "HttpFetcherThread"), "HttpFetcherThread")
+    init = py2v.find_func(cls, "__init__")
+    ib = [norm(u(s)) for s in _plain_body(init)]
+    if ib and ib[0].startswith("ifrequestsisNone:raise"):
+        ib = ib[1:]
+    if ib != ["self.url=url", "self.range_start=0", "self.session=requests_retry_session()"]:
+        raise Untranslatable("HttpRangeStream.__init__ does more than url / range_start / session = requests_retry_session(): " + " ; ".join(ib)[:120])
+    if [norm(u(s)) for s in _plain_body(py2v.find_func(cls, "close"))] != ["self.session.close()"]:
+        raise Untranslatable("HttpRangeStream.close")
+    if [norm(u(s)) for s in _plain_body(py2v.find_func(cls, "__exit__"))] != ["self.close()"]:
+        raise Untranslatable("HttpRangeStream.__exit__")
+    if [norm(u(s)) for s in _plain_body(py2v.find_func(cls, "__enter__"))] != ["returnself"]:
+        raise Untranslatable("HttpRangeStream.__enter__")
+    _no_shared_object(f, "requests_retry_session", shared)
+    for m in cls.body:
+        if isinstance(m, ast.FunctionDef):
+            _no_shared_object(m, "HttpRangeStream." + m.name, shared)
+            for n in ast.walk(m):
+                if isinstance(n, ast.Attribute) and isinstance(n.value, ast.Name) and n.value.id in ("HttpRangeStream", "type", "cls"):
+                    raise Untranslatable(f"HttpRangeStream.{m.name}: class-level access {u(n)[:40]}")
+                if isinstance(n, ast.Attribute) and n.attr == "__class__":
+                    raise Untranslatable(f"HttpRangeStream.{m.name}: class-level access {u(n)[:40]}")
+    for other in mod.body:
+        if isinstance(other, ast.ClassDef):
+            for b in other.bases:
+                if u(b).split(".")[-1] in ("HTTPAdapter", "BaseAdapter", "Session", "Retry", "PoolManager"):
+                    raise Untranslatable(f"class {other.name}({u(b)}) in laspy/copc.py: a transport component of its own")
+    return total, connect, read, statuses
+
+
+def _int_lit2(e):
+    if isinstance(e, ast.Constant) and type(e.value) is int and 100 <= e.value <= 999:
+        return e.value
+    raise Untranslatable(f"status_forcelist: not an HTTP status literal: {u(e)[:40]}")
+
+
 # ------------------------------------------------------------------ what the reader keeps between two queries
 _CONTAINER_CALLS = {"dict", "list", "set", "defaultdict", "OrderedDict", "deque", "bytearray", "WeakValueDictionary", "Counter",
                     "WeakKeyDictionary", "ChainMap", "array"}
@@ -949,7 +1139,8 @@ def fetch_site(repo):
 
 
 def gen(repo):
-    o = py2v.Out("laspy/copc.py HttpFetcherThread.run, http_queue_strategy, http_thread_executor_strategy, HttpRangeStream, ChunkIter")
+    o = py2v.Out("laspy/copc.py HttpFetcherThread.run, http_queue_strategy, http_thread_executor_strategy, HttpRangeStream, "
+                 "requests_retry_session, ChunkIter")
     o.text += TYPES + "\n"
     o.add("gen_worker_prog", lambda: "Definition gen_worker_prog : list winstr := [" + "; ".join(worker_prog(repo)) + "].\n")
 
@@ -975,6 +1166,12 @@ def gen(repo):
         return f"Definition gen_fetch_workers (http_num_threads : nat) : nat := {fetch_workers(repo)}.\n"
     o.add("gen_fetch_workers", fw)
     o.add("gen_fetch_site", lambda: f"Definition gen_fetch_site : fetch_site := {fetch_site(repo)}.\n")
+
+    def tr():
+        total, connect, read, statuses = transport(repo)
+        return (f"Definition gen_retry : retry_cfg := mkRetry {total} {connect} {read} [" + "; ".join(str(x) for x in statuses) + "].\n"
+                "Definition gen_transport_kept : transport_kept := TkNothing.\n")
+    o.add("gen_transport", tr)
     return o
 
 
